@@ -23,7 +23,9 @@ META = {
     "note": "Trusted: TLC; the perfect-cipher algebra (C06 removes it); the reading of ISO 32000-2 7.6 in IsoSubject/IsoMethod; the harness's own "
             "canonical forms of passwords (PDFDocEncoding/32 bytes, UTF-8/127 bytes on alphabets where SASLprep is the identity). Exhaustive only "
             "within the model bounds; beyond that sampled. Not decided: cryptographic strength, permissions, acceptance of merely equivalent "
-            "passwords, decrypt_raw called directly, edits that delete or add objects (a deleted object-stream member comes back on decrypt: "
+            "passwords, decrypt_raw called directly, V2 key lengths that are not a multiple of 8 (not a supported key length: ISO 32000 and lopdf's "
+            "own reader refuse them; EncryptionVersion::V2 accepts them and the result cannot be decrypted - proposed_fixes/C05-v2-key-length-check.diff), "
+            " edits that delete or add objects (a deleted object-stream member comes back on decrypt: "
             "lopdf issue 160, outside the statement), encrypted files with object streams written by other producers (C06).",
     "bins": ["c05"],
     "modules": ["MC_Security.tla", "Trace_Security.tla"],
@@ -37,9 +39,13 @@ META = {
 # (C05_DEV="h12:1,h13:1" overrides for experiments against a scratch worktree that lacks a fix.)
 # (osrep was never a defect of the code: "Decrypt's re-expansion of object streams replaces live objects" is a seeded
 # change the check missed before documents in the loaded-from-object-streams state and Edit were modelled.)
-DEV = {"h12": False, "h13": False, "t127": False, "mdict": False, "dparr": False, "osrep": False}
+# drop / cryptv / mdstr: found by an independent audit (2026-10-03), present in /repo today, listed in known_findings/C05.json;
+# proposed_fixes/C05-password-not-encodable.diff, C05-crypt-filter-below-v4.diff, C05-metadata-stream-dictionary-strings.diff.
+DEV = {"h12": False, "h13": False, "t127": False, "mdict": False, "dparr": False, "osrep": False,
+       "drop": True, "cryptv": True, "mdstr": True}
 DEV_TAG = {"h12": "owner.R234.key", "h13": "streamdict.string", "t127": "pw.gt127.R56", "mdict": "metadata.nonstream", "dparr": "crypt.dparray",
-           "osrep": "restored.objstm.member"}
+           "osrep": "restored.objstm.member", "drop": "pw.unencodable.R234", "cryptv": "crypt.belowV4", "mdstr": "metadata.streamdict"}
+NEED_TAGS = ("ok-restored", "ok-rejected", "ok-loaded-enc", "ok-loaded-autodecrypted", "ok-auth", "ok-auth-rejected", "ok", "ok-edit")
 FILE_DOCS = ("D5", "D6")   # MC_Security!FileDocs: documents given in the state a loader leaves
 
 
@@ -62,11 +68,12 @@ def with_dev(cfg_name, w, flags):
     return p
 
 
-ACTIONS = ["MakeStateH", "EncryptH", "SaveH", "LoadH", "DecryptH", "AuthUserH", "AuthOwnerH", "AuthH", "EditH"]
+ACTIONS = ["MakeStateH", "EncryptH", "SaveH", "LoadH", "DecryptH", "AuthUserH", "AuthOwnerH", "AuthH", "EditH", "RekeyH"]
 
 TOK = {"E": "", "A": "user", "B": "owner", "W": "nope", "N": "пароль", "N2": "密碼",
        "L1": "a" * 32 + "TAIL1", "L2": "a" * 32 + "tail2", "S32": "a" * 32,
-       "H1": "b" * 127 + "xyz", "H2": "b" * 127 + "abc", "T127": "b" * 127}
+       "H1": "b" * 127 + "xyz", "H2": "b" * 127 + "abc", "T127": "b" * 127,
+       "M": "пароль-1", "M2": "-1", "J": "\U0001F642"}
 
 
 def ok_tags(tags):
@@ -219,22 +226,22 @@ def synth_trace():
         return {"kind": kind, "insd": insd, "otyp": otyp, "inmd": False, "osm": ln == 5, "crypt": {"f": crypt, "n": ""}, "len": ln, "present": True, "eq": eq}
     objs = [{"k": "dict", "typ": "-", "v": [{"k": "str", "pid": 1, "len": 20}, {"k": "arr", "v": [{"k": "str", "pid": 2, "len": 5}]}]},
             {"k": "stream", "typ": "-", "crypt": {"f": "none", "n": ""}, "d": [], "pid": 3, "len": 40, "mem": []}]
+    no = {"u": "diff", "o": "diff", "ud": False, "od": False, "rep": True}
+    own = {"u": "diff", "o": "same", "ud": False, "od": True, "rep": True}
     cfg = {"V": 5, "R": 6, "klen": 256, "em": True, "cf": [["F1", "AES256"], ["F2", "AES256"]], "stmf": "F1", "strf": "F2",
-           "ulen": 4, "olen": 5, "e": {"u": "diff", "o": "diff"}, "nobj0": 2}
+           "ulen": 4, "olen": 5, "e": dict(no), "nobj0": 2, "urep": True, "orep": True}
     plain = [it("str", 20, True), it("str", 5, True), it("stream", 40, True)]
     enc = [it("str", 20, False), it("str", 5, False), it("stream", 40, False)]
-    no = {"u": "diff", "o": "diff"}
-
     def call(name, rel, res, tenc, nobj, same, items):
         return {"ev": "Call", "case": 1, "call": name, "pos": 0, "rel": rel, "res": res, "tag": res, "tenc": tenc, "nobj": nobj, "same": same, "items": copy.deepcopy(items)}
     return [{"ev": "Reset", "case": 1, "cfg": cfg, "objs": objs, "nitems": 3},
             call("MakeState", no, "Ok", False, 2, True, plain),
             call("Encrypt", no, "Ok", True, 3, False, enc),
             call("Decrypt", no, "Err", True, 3, True, enc),
-            call("Auth", {"u": "diff", "o": "same"}, "Ok", True, 3, True, enc),
+            call("Auth", own, "Ok", True, 3, True, enc),
             call("Save", no, "Ok", True, 3, True, enc),
             call("Load", no, "Ok", True, 3, True, enc),
-            call("Decrypt", {"u": "diff", "o": "same"}, "Ok", False, 2, False, plain)]
+            call("Decrypt", own, "Ok", False, 2, False, plain)]
 
 
 NEGATIVES = [
@@ -249,12 +256,23 @@ NEGATIVES = [
     ("encrypt.noencdict", lambda t: t[2].update(tenc=False)),
     ("rejects.accepted", lambda t: t[3].update(res="Ok")),
     ("rejects.mutated", lambda t: t[3].update(same=False)),
-    ("rejects.auth.accepted", lambda t: t[4].update(rel={"u": "diff", "o": "diff"})),
+    ("rejects.auth.accepted", lambda t: t[4].update(rel=dict(t[3]["rel"]))),
     ("either.auth.rejected", lambda t: t[4].update(res="Err")),
     ("viafile.load.err", lambda t: t[6].update(res="Err")),
     ("rejects.load.autodecrypt", lambda t: t[6].update(tenc=False, nobj=2, items=t[1]["items"])),
     ("viafile.hidden.other", lambda t: t[6]["items"][0].update(eq=True)),
+    # revision 3: a wrong password with characters PDFDocEncoding lacks is accepted
+    ("pw.unencodable.R234", lambda t: (v2(t), t[3].update(res="Ok"), t[3]["rel"].update(rep=False))),
+    # V 2: a stream with a Crypt filter entry stays as it is
+    ("crypt.belowV4", lambda t: (v2(t), [e["items"][2]["crypt"].update(f="name", n="F1") for e in t[1:]], t[2]["items"][2].update(eq=True))),
+    # EncryptMetadata false: a string in the metadata stream's dictionary stays as it is
+    ("metadata.streamdict", lambda t: (t[0]["cfg"].update(em=False), [e["items"][0].update(insd=True, otyp="Metadata") for e in t[1:]],
+                                       t[2]["items"][0].update(eq=True))),
 ]
+
+
+def v2(t):
+    t[0]["cfg"].update(V=2, R=3, klen=128, cf=[], stmf="", strf="")
 
 
 def negative_controls(chk, w):
@@ -351,7 +369,7 @@ def run(tier):
     # ------------- (G) replay the generated sequences
     def key(g):
         c = g["cfg"]
-        return (json.dumps([c[k] for k in ("name", "V", "R", "klen", "em", "cf", "stmf", "strf", "user", "owner", "dn")]),)
+        return (json.dumps([c[k] for k in ("name", "V", "R", "klen", "em", "cf", "stmf", "strf", "user", "owner", "dn", "alt")]),)
     seqs = {}
     for g in gen:
         seqs.setdefault(key(g), []).append(g)
@@ -369,15 +387,31 @@ def run(tier):
         good = [g for g in cases if not any(not c["ok"] for c in g["calls"])]
         rnd.shuffle(bad)
         rnd.shuffle(good)
-        # the loaded-from-file documents (with edits) are always represented
-        filed = [g for g in good if g["cfg"]["dn"] in FILE_DOCS and any(c["call"] == "Edit" for c in g["calls"])]
-        good = filed[:900] + [g for g in good if g not in filed[:900]]
-        cases = bad[:1200] + good[:2500 - min(len(bad), 1200)]
+        # every class the anti-vacuity checks below ask for is represented, so are the loaded-from-file documents (with
+        # edits), the Rekey sequences and the passwords with characters PDFDocEncoding lacks; the rest is a seeded sample
+        picked, ids = [], set()
+
+        def take(gs, n):
+            for g in gs:
+                if n <= 0:
+                    break
+                if id(g) not in ids:
+                    ids.add(id(g))
+                    picked.append(g)
+                    n -= 1
+        for t in NEED_TAGS:
+            take([g for g in good if any(t in c["tags"] for c in g["calls"])], 40)
+        take([g for g in good if (g["cfg"]["dn"] in FILE_DOCS and any(c["call"] == "Edit" for c in g["calls"]))
+              or any(c["call"] == "Rekey" for c in g["calls"]) or not (g["cfg"]["urep"] and g["cfg"]["orep"])], 900)
+        take(bad, 1200)
+        take(good, 2500 - len(picked))
+        cases = picked
     cin, cout = os.path.join(w, "gen.ndjson"), os.path.join(w, "gen.out.ndjson")
     write_ndjson(cin, [{"cfg": g["cfg"], "user": TOK[g["cfg"]["user"]], "owner": TOK[g["cfg"]["owner"]], "objs": docs[g["cfg"]["dn"]],
                         "prep": "file" if g["cfg"]["dn"] in FILE_DOCS else "mem",
                         "calls": [dict({"call": c["call"], "tok": c["tok"], "pos": c["pos"]},
-                                       **({"pw": TOK[c["tok"]]} if c["call"] in ("Decrypt", "AuthUser", "AuthOwner", "Auth") else {}))
+                                       **({"pw": TOK[c["tok"]]} if c["call"] in ("Decrypt", "AuthUser", "AuthOwner", "Auth") else
+                                          {"cfg": g["cfg"]["alt"]} if c["call"] == "Rekey" else {}))
                                   for c in g["calls"]]} for g in cases])
     run_bin("c05", ["replay", "--in", cin, "--out", cout, "--seed", vlib.seed(), "--threads", 4 if quick else 12])
     gevs = read_ndjson(cout)
@@ -401,7 +435,7 @@ def run(tier):
     for g in cases:
         for c in g["calls"]:
             expected |= set(c["tags"])
-    for t in ("ok-restored", "ok-rejected", "ok-loaded-enc", "ok-loaded-autodecrypted", "ok-auth", "ok-auth-rejected", "ok", "ok-edit"):
+    for t in NEED_TAGS:
         if t not in expected:
             raise vlib.ToolError("vacuous replay: no replayed sequence contains a call the model judges %s" % t)
     # ... and the loaded-from-object-streams class: a member of a container is edited, then encrypted and decrypted in memory
@@ -421,6 +455,9 @@ def run(tier):
         return False
     if not any(member_roundtrip(g) for g in cases):
         raise vlib.ToolError("vacuous replay: no sequence edits an object-stream member and round-trips it in memory")
+    if not any(any(c["call"] == "Rekey" for c in g["calls"][:i]) and g["calls"][i]["call"] == "Encrypt" and g["calls"][i]["res"] == "Ok"
+               for g in cases for i in range(len(g["calls"]))):
+        raise vlib.ToolError("vacuous replay: no sequence protects a decrypted V4/V5 document again with V2 (Rekey ; Encrypt)")
     mid = cases[len(cases) // 2]
     chk.sample({"generated": {"cfg": mid["cfg"]["name"], "user": mid["cfg"]["user"], "owner": mid["cfg"]["owner"], "doc": mid["cfg"]["dn"],
                               "calls": [[c["call"], c["tok"], c["res"], sorted(c["tags"])] for c in mid["calls"]]}})
@@ -437,6 +474,34 @@ def run(tier):
     cfgs, pws, itemcls = set(), set(), set()
     for reset, calls in rruns:
         itemcls.add("prep." + reset["prep"])
+        c0 = reset["cfg"]
+        if c0["R"] <= 4 and not c0["urep"]:
+            itemcls.add("pw.user.unencodable")
+        if c0["R"] <= 4 and not c0["orep"]:
+            itemcls.add("pw.owner.unencodable")
+        if any(ord(ch) >= 0x1F000 for ch in map(chr, reset["user"] + reset["owner"])):
+            itemcls.add("pw.emoji")
+        for nm in ("user", "owner"):
+            cs = [ord(ch) < 256 for ch in map(chr, reset[nm])]
+            if c0["R"] <= 4 and any(cs) and not all(cs):
+                itemcls.add("pw.mixed")
+        cur, was_dec = c0, False
+        for c in calls:
+            if c["call"] in ("Decrypt", "AuthUser", "AuthOwner", "Auth") and cur["R"] <= 4 and not c["rel"]["rep"] \
+                    and c["rel"]["u"] == "diff" and c["rel"]["o"] == "diff" and not (cur["urep"] and cur["orep"]):
+                itemcls.add("offer.differs.in.unencodable")
+            if c["call"] == "Decrypt" and c["res"] == "Ok":
+                was_dec = True
+            if c["call"] == "Rekey" and c["res"] == "Ok":
+                if was_dec and cur["V"] >= 4 and c["cfg"]["V"] < 4:
+                    itemcls.add("rekey.V4+.to.V2-")
+                cur = c["cfg"]
+            if c["call"] == "Encrypt" and c["res"] == "Ok":
+                for itm in c["items"]:
+                    if itm["kind"] == "stream" and itm["crypt"]["f"] != "none" and cur["V"] < 4 and itm["len"] >= 16:
+                        itemcls.add("crypt.entry.belowV4")
+                    if itm["kind"] == "str" and itm["insd"] and itm["otyp"] == "Metadata" and itm["len"] >= 16:
+                        itemcls.add("metadata.dict.string.em=%s" % (cur["em"] if cur["V"] >= 4 else True))
         members = {p for o in reset["objs"] if o["k"] == "stream" for p in o["mem"]}
         st = 0
         for c in calls:   # an object-stream member edited, then encrypted and decrypted with a right password in memory
@@ -473,6 +538,8 @@ def run(tier):
                     itemcls.add("objstm.member")
     missing = (need - cfgs) | ({"empty", "ascii", "non-latin", "gt32", "gt127", "owner=user"} - pws) | \
               ({"streamdict", "metadata", "crypt.name", "crypt.arr", "crypt.nodp", "crypt.noname", "empty.str", "empty.stream", "long.str", "long.stream",
+                "pw.user.unencodable", "pw.owner.unencodable", "pw.emoji", "pw.mixed", "offer.differs.in.unencodable",
+                "rekey.V4+.to.V2-", "crypt.entry.belowV4", "metadata.dict.string.em=True", "metadata.dict.string.em=False",
                 "prep.mem", "prep.file-objstm", "prep.file-xrefstm", "objstm.container", "objstm.member", "edit", "member.edit.roundtrip"} - itemcls)
     if missing:
         raise vlib.ToolError("vacuous trace set: classes never recorded: %s" % sorted(missing))
